@@ -237,6 +237,13 @@ func TestC01History(t *testing.T) {
 	opt := historyOptMixed(w, maxSteps())
 	rapid.Check(t, func(rt *rapid.T) {
 		c := caseHistory{History: kit.GenHistory(rt, opt)}
+		if kit.Chance(rt, "huge", 12) {
+			// the 2^256-1-supply denom crossing one route repeatedly (funds re-escrowed in
+			// between): the statistics reach their 256-bit bound and can no longer be recorded;
+			// the funds must still leave the account or be refunded
+			c.History = genHugeHistory(rt, w)
+			rec.Label("history", "huge amounts on one route")
+		}
 		rec.Eval()
 		if err := runC01(w, c, rec); err != nil {
 			rec.Fail(rt, c, "%v", err)
@@ -288,6 +295,13 @@ func checkC02Step(w *world.World, o kit.Obs, rec *kit.Recorder) error {
 		}
 		if s.Sign() > 0 {
 			return fmt.Errorf("denom %s: supply grew by %s", denom, s)
+		}
+	}
+	// whatever the memo was: a success acknowledgement for a packet to the orbiter account means
+	// the released coin has been handed on in full, so the account cannot have gained anything
+	for k, d := range o.Delta {
+		if addr, denom := splitKey(k); addr == world.OrbiterAddr.String() && d.Sign() > 0 {
+			return fmt.Errorf("success acknowledgement, yet %s %s of the released coin are still on the orbiter account: fee credits plus the outgoing amount do not add up to what the escrow released", d, denom)
 		}
 	}
 	if !kit.Constructed(t) {
